@@ -63,7 +63,7 @@ def main():
 
     pro = strip_comments(src("throttlecrab/src/core/store/probabilistic.rs"))
     add("PROB_DEFAULT_MODULO", num(const(pro, "PROBABILISTIC_CLEANUP_MODULO")), "probabilistic.rs")
-    add("PROB_MULT", num(need(pro, r"wrapping_mul\(\s*([0-9_]+)\s*\)", "multiplier").group(1)), "probabilistic.rs hash multiplier")
+    add("PROB_MULT", num(need(pro, r"operations_count\)?\s*(?:\.wrapping_mul\(|\*)\s*([0-9_]+)", "multiplier").group(1)), "probabilistic.rs hash multiplier")
 
     rate = strip_comments(src("throttlecrab/src/core/rate/mod.rs"))
     for fn, nm in (("per_second", "UNIT_SECOND"), ("per_minute", "UNIT_MINUTE"), ("per_hour", "UNIT_HOUR"), ("per_day", "UNIT_DAY")):
